@@ -129,5 +129,15 @@ CLAIMS['C15'] = dict(
          'Remaining option classes and sequence-level clauses: bounded native round trip only.',
     note='printed precision abstracted (a %g token carries its value); argparse axioms',
     design_ref='DESIGN.md §5 C15, Appendix E')
+CLAIMS['C18'] = dict(
+    text='Proof over abstract strings against an ASSUMED prompt grammar of MININEC-3: Mininec.as_basic_input answers the prompts in order '
+         '(free space / ideal ground / real media; impedance or S-parameter loads) and announces wires = sum of emulated wires, loads = number '
+         'of loaded pulses; Excitation.as_basic_input writes pulse number, magnitude and phase in DEGREES (Excitation.__init__ ties degrees to '
+         'radians and to abs/angle of a complex voltage); load writers (uH/uF factor exactly for version 9); Medium.as_basic_input per position; '
+         'Geobj.as_basic_input: plain wires with consolidated end points, emulated objects as single-segment wires chaining with equal coordinates '
+         'and consolidated outer ends; Mininec.endpoint. BASIC\'s own connection logic: bounded native emulation only.',
+    note='the prompt grammar is an assumed contract on an external program; unit list counts (2 objects, 1 source, 2 loads, 3 segments) in the order '
+         'and block units -- the per-element text does not depend on the count',
+    design_ref='DESIGN.md §5 C18')
 for _p in CLAIMS:
     NOT_APPLICABLE.pop(_p, None)
